@@ -6,7 +6,7 @@
    satisfiable (codec_laws_satisfiable). *)
 From Coq Require Import List NArith Bool Permutation.
 From V Require Import lib.Strs gen.Consts model.ClientRead model.SelfEnc
-  proofs.SelfEncPartition proofs.SelfEncLists proofs.SelfEnc proofs.SelfEncMore proofs.SelfEncBound proofs.SelfEncPackShape.
+  proofs.SelfEncPartition proofs.SelfEncLists proofs.SelfEnc proofs.SelfEncMore proofs.SelfEncBound proofs.SelfEncPackShape proofs.SelfEncSelfRef.
 Import ListNotations.
 Open Scope N_scope.
 
@@ -55,6 +55,40 @@ Theorem roundtrip : forall C MAX fuel d root chunks,
     data_get C (store_net C (root :: chunks)) sched fuel' root = inl d /\
     data_get_public C (store_net C (root :: chunks)) sched fuel' (k_addr root) = inl d.
 Proof. exact roundtrip_lemma. Qed.
+
+(* the same against any well-formed store that CONTAINS the produced chunks: other uploads may be on
+   the network as well *)
+Theorem roundtrip_any_store : forall C MAX fuel d root chunks st,
+  codec_ok C -> 1 <= MAX ->
+  encrypt C MAX fuel d = inl (root, chunks) ->
+  good_store C st -> incl (root :: chunks) st ->
+  exists levels, (1 <= levels <= S fuel)%nat /\
+  forall sched fuel', valid_sched sched -> (levels <= fuel')%nat ->
+    data_get C (store_net C st) sched fuel' root = inl d /\
+    data_get_public C (store_net C st) sched fuel' (k_addr root) = inl d.
+Proof. exact roundtrip_in_larger_store. Qed.
+
+(* content that is itself the serialised chunk of a wrapped data map level (a backup copy of another
+   upload's data map) comes back as stored: the level loop stops on the First TAG, not on what the
+   decrypted bytes parse as (non-vacuous: ex_selfref_roundtrips) *)
+Theorem datamap_content_roundtrips : forall C MAX fuel lvl root chunks st,
+  codec_ok C -> 1 <= MAX ->
+  encrypt C MAX fuel (c_ser C (c_wrap C lvl)) = inl (root, chunks) ->
+  good_store C st -> incl (root :: chunks) st ->
+  exists levels, (1 <= levels <= S fuel)%nat /\
+  forall sched fuel', valid_sched sched -> (levels <= fuel')%nat ->
+    data_get C (store_net C st) sched fuel' root = inl (c_ser C (c_wrap C lvl)).
+Proof. exact datamap_content_roundtrips. Qed.
+
+(* a loop that keeps unpacking for as long as the decrypted bytes parse as a data-map chunk returns
+   another upload's plaintext for such content *)
+Theorem tag_blind_unpacking_refuted :
+  exists C MAX fuel d root chunks st sched f',
+    codec_ok C /\ encrypt C MAX fuel d = inl (root, chunks) /\ incl (root :: chunks) st /\
+    no_collision_b st = true /\ valid_sched sched /\
+    data_get C (store_net C st) sched f' root = inl d /\
+    exists other, data_get_greedy C (store_net C st) sched f' root = inl other /\ other <> d.
+Proof. exact greedy_unpacking_refuted. Qed.
 
 (* the packing loop ends: with a MAX_CHUNK_SIZE that can hold a three-entry wrapped data map, every
    round strictly shrinks the wrapped map, so fuel = its first size is always enough (a smaller
